@@ -6,7 +6,7 @@ META = {
     "level": "proof",
     "text": "Each negloglike (Gauss, Poisson, CC, Mock, MSE), Likelihood.get_pred and the CC/Mock get_pred are verified from their AST against contracts over "
             "extended reals (NaN, +-inf, finite reals, flag for a non-zero imaginary part) for data vectors of any length and an opaque model function, under three "
-            "variants of the model call (array of values, scalar, raising): result never NaN; +inf whenever a prediction is complex, NaN or (Poisson) non-positive; "
+            "variants of the model call (array of values, scalar, raising, and a model that hands back the abscissa array itself): the likelihood's data vectors are not modified (frame); result never NaN; +inf whenever a prediction is complex, NaN or (Poisson) non-positive; "
             "equal to the documented sum/mean whenever predictions and data are finite reals (sigma > 0). A runtime sweep of the real classes on special values "
             "cross-checks the encoding and replays counterexamples.",
     "note": "A-float: finite floats are exact reals (no rounding/overflow); numpy semantics of + - * / ** log sqrt sum mean isnan isreal all on NaN/inf are the engine's "
@@ -19,7 +19,7 @@ CHECKER = "./bin/check C09 (pyvc on esr/fitting/likelihood.py -> z3)"
 def check(run):
     D.lemma_library(run)
     jobs = [(cls + ".negloglike", (lambda cls=cls, v=v: C.negloglike_contract(cls, v)), v)
-            for cls in ("GaussLikelihood", "PoissonLikelihood", "MSE", "CCLikelihood", "MockLikelihood") for v in ("array", "scalar", "raises")]
+            for cls in ("GaussLikelihood", "PoissonLikelihood", "MSE", "CCLikelihood", "MockLikelihood") for v in ("array", "scalar", "raises", "alias")]
     jobs += [("Likelihood.get_pred", (lambda v=v: C.base_get_pred_verify_contract(v)), v) for v in ("array", "scalar", "raises")]
     jobs += [(cls + ".get_pred", (lambda cls=cls, v=v: C.cc_get_pred_verify_contract(v, cls)), v)
              for cls in ("CCLikelihood", "MockLikelihood") for v in ("array", "scalar", "raises")]
